@@ -34,6 +34,10 @@ def check(ctx, rep):
     for adt, field, adapter in sinks:
         fty = [f['ty'] for f in adt_fields(cad, adt) if f['name'] == field][0]
         ok = fty.startswith('std::sync::poison::mutex::Mutex<cadence::io::MultiLineWriter<')
+        if not ok and type_head(fty) in cad.adts:
+            # a private single-field newtype around the mutex (its lock() helper is judged, inlined, by the lock discipline R1)
+            inner = adt_fields(cad, type_head(fty)) or []
+            ok = len(inner) == 1 and inner[0]['ty'].startswith('std::sync::poison::mutex::Mutex<cadence::io::MultiLineWriter<')
         rep.ob('R2', '%s/writer-behind-mutex' % adt.rsplit('::', 1)[-1], ok, '', 'field %s: %s' % (field, fty[:80]))
     rep.ob('R2', 'forbid-unsafe', cad.has_forbid_unsafe(), 'cadence/src/lib.rs', '#![forbid(unsafe_code)]: &mut to the writer exists only through a guard')
     okb, codes, msgs, err = cargo_check(ctx, 'witness_bounds', BOUNDS)
